@@ -327,6 +327,17 @@ Proof.
   constructor; [split; reflexivity|]. constructor; [split; reflexivity|constructor].
 Qed.
 
+(* the LogQL stream selector planner (StreamSelectPlanner, model/LogqlPlan.v stream_select: the fingerprint sub-select of every LogQL
+   request), for ALL matcher lists: label names and values arbitrary, same operators *)
+Theorem logql_stream_selector_is_value_independent : forall c cluster ms ms' p,
+  Forall2 SqlPiecesSel.matcher_variant ms ms' -> pieces (LogqlPlan.stream_select c ms) cluster = Some p -> pok QN p = true ->
+  exists p', pieces (LogqlPlan.stream_select c ms') cluster = Some p' /\ pok QN p' = true /\ shape p' = shape p /\
+    render (LogqlPlan.stream_select c ms) cluster = Some (flat p) /\ render (LogqlPlan.stream_select c ms') cluster = Some (flat p') /\
+    skeleton (lex (flat p')) = skeleton (lex (flat p)) /\
+    lex (flat p') = etoks QN p' /\ List.length (rvalues p') = List.length (rvalues p).
+Proof. exact SqlEraseProofs.logql_stream_select_value_independent. Qed.
+Print Assumptions logql_stream_selector_is_value_independent.
+
 (* text level: two segmented texts that differ only inside their value pieces *)
 Theorem same_shape_same_structure : forall p p', shape p = shape p' ->
   forallb (all_chars plain_char) (rqids p') = true -> pok QN p = true ->
@@ -432,8 +443,7 @@ Proof. split; reflexivity. Qed.
    term analysis (de-duplication of terms by their text) finds the same condition over pointwise variant terms - same operator, same KIND
    of label (scope prefix, duration, name; the attribute name behind the prefix is arbitrary), the same value or two quoted strings (both
    decodable or both not) - and the aggregators are equal.  Then the two plans fail with the same error, or both give a statement, and
-   the statements have the same token structure with one literal per value.  (Requests with several selectors, and a proof that the
-   term analysis of two requests written with the same shape agrees, are open.) *)
+   the statements have the same token structure with one literal per value. *)
 Theorem traceql_planner_is_value_independent : forall c h h' ao ao' m m' n,
   TqEraseProofs.selector_variant h h' -> TqEraseProofs.mode_variant m m' ->
   match TraceqlPlan.plan (Traceql.Script h ao None) m c n, TraceqlPlan.plan (Traceql.Script h' ao' None) m' c n with
@@ -449,6 +459,45 @@ Theorem traceql_planner_is_value_independent : forall c h h' ao ao' m m' n,
   end.
 Proof. exact TqEraseProofs.traceql_planner_value_independent. Qed.
 Print Assumptions traceql_planner_is_value_independent.
+
+(* The hypothesis on the term analysis follows from how the two requests are WRITTEN: two attribute expressions of the same shape
+   (same parentheses, same && / ||), whose terms are pointwise variants, and a translation phi of term texts that maps the text of
+   each term to the text of the corresponding term and is injective on the texts of the first request (equal terms correspond to
+   equal terms, distinct to distinct: analyzeCond de-duplicates terms by their text). *)
+Theorem traceql_requests_of_the_same_shape_have_the_same_structure : forall phi c e e' ag ao ao' m m' n,
+  TqEraseProofs.exp_variant phi e e' -> TqEraseProofs.inj_on phi (TqEraseProofs.exp_keys e) -> TqEraseProofs.mode_variant m m' ->
+  match TraceqlPlan.plan (Traceql.Script {| Traceql.sel_attr := Some e; Traceql.sel_agg := ag |} ao None) m c n,
+        TraceqlPlan.plan (Traceql.Script {| Traceql.sel_attr := Some e'; Traceql.sel_agg := ag |} ao' None) m' c n with
+  | TraceqlPlan.Ok s, TraceqlPlan.Ok s' =>
+      pok QN (TqPieces.tq_pieces s) = true ->
+      pok QN (TqPieces.tq_pieces s') = true /\ shape (TqPieces.tq_pieces s') = shape (TqPieces.tq_pieces s) /\
+      skeleton (lex (TqSql.render s')) = skeleton (lex (TqSql.render s)) /\
+      lex (TqSql.render s') = etoks QN (TqPieces.tq_pieces s') /\
+      List.length (rvalues (TqPieces.tq_pieces s')) = List.length (rvalues (TqPieces.tq_pieces s))
+  | TraceqlPlan.Err x, TraceqlPlan.Err x' => x = x'
+  | TraceqlPlan.Panic, TraceqlPlan.Panic => True
+  | _, _ => False
+  end.
+Proof. exact TqEraseProofs.traceql_same_shape_requests. Qed.
+Print Assumptions traceql_requests_of_the_same_shape_have_the_same_structure.
+
+(* ... and for the search entry point (clickhouse_transpiler.Plan) with ANY number of selectors joined by && and ||: script_variant =
+   pointwise selector_variant and the same operators between the selectors.  planComplex builds the same tree of expression planners
+   (plan_complex_variant), every operand is planned alike, ComplexAndPlanner / ComplexOrPlanner wrap them alike. *)
+Theorem traceql_search_planner_is_value_independent : forall q q' c n, TqEraseProofs.script_variant q q' ->
+  match TraceqlPlan.plan q TraceqlPlan.MSearch c n, TraceqlPlan.plan q' TraceqlPlan.MSearch c n with
+  | TraceqlPlan.Ok s, TraceqlPlan.Ok s' =>
+      pok QN (TqPieces.tq_pieces s) = true ->
+      pok QN (TqPieces.tq_pieces s') = true /\ shape (TqPieces.tq_pieces s') = shape (TqPieces.tq_pieces s) /\
+      skeleton (lex (TqSql.render s')) = skeleton (lex (TqSql.render s)) /\
+      lex (TqSql.render s') = etoks QN (TqPieces.tq_pieces s') /\
+      List.length (rvalues (TqPieces.tq_pieces s')) = List.length (rvalues (TqPieces.tq_pieces s))
+  | TraceqlPlan.Err e, TraceqlPlan.Err e' => e = e'
+  | TraceqlPlan.Panic, TraceqlPlan.Panic => True
+  | _, _ => False
+  end.
+Proof. exact TqEraseProofs.traceql_search_value_independent. Qed.
+Print Assumptions traceql_search_planner_is_value_independent.
 
 (* two TraceQL trees with the same erasure have the same statement structure *)
 Theorem traceql_trees_differing_only_in_values_have_the_same_structure : forall s s',
@@ -484,5 +533,70 @@ Proof.
   constructor; [|constructor].
   split; [reflexivity|]. split; [reflexivity|]. right.
   split; [discriminate|]. split; [discriminate|]. split; [split; intro H; vm_compute in H; discriminate|]. split; reflexivity.
+Qed.
+
+(* {.foo=~"zqxmark"} && {name="zqxmark"} | count() > 1   vs   {.b-c=~"x') OR ('1'='1"} && {name="\'--"} | count() > 1 *)
+Example traceql_search_variant_example :
+  let sv := fun tok unq => {| Traceql.v_time := ""; Traceql.v_f := ""; Traceql.v_str := Some tok; Traceql.v_unq := Some unq;
+                              Traceql.v_ffmt := None; Traceql.v_dur := None |} in
+  let tm := fun l op tok unq => {| Traceql.a_label := l; Traceql.a_op := op; Traceql.a_val := sv tok unq |} in
+  let ag := {| Traceql.g_fn := Traceql.AgCount; Traceql.g_attr := ""; Traceql.g_cmp := Traceql.CGt; Traceql.g_num := "1"; Traceql.g_meas := "";
+               Traceql.g_ffmt := Some "1"; Traceql.g_durf := None |} in
+  let sel := fun t a => {| Traceql.sel_attr := Some (Traceql.AExp (Traceql.HTerm t) Traceql.AONone None); Traceql.sel_agg := a |} in
+  let q := Traceql.Script (sel (tm ".foo" Traceql.CRe """zqxmark""" "zqxmark") None) Traceql.AOAnd
+             (Some (Traceql.Script (sel (tm "name" Traceql.CEq """zqxmark""" "zqxmark") (Some ag)) Traceql.AONone None)) in
+  let q' := Traceql.Script (sel (tm ".b-c" Traceql.CRe """x') OR ('1'='1""" "x') OR ('1'='1") None) Traceql.AOAnd
+             (Some (Traceql.Script (sel (tm "name" Traceql.CEq """\'--""" "\'--") (Some ag)) Traceql.AONone None)) in
+  let c := {| TraceqlPlan.from_ns := 1700000000000000000%Z; TraceqlPlan.to_ns := 1700003600000000000%Z;
+              TraceqlPlan.from_date := "2023-11-14"; TraceqlPlan.to_date := "2023-11-14"; TraceqlPlan.ffd_from := "2023-11-14"; TraceqlPlan.ffd_to := "2023-11-14";
+              TraceqlPlan.limit := 20%Z; TraceqlPlan.is_cluster := false; TraceqlPlan.rf_max := 0%Z; TraceqlPlan.rf_i := 0%Z; TraceqlPlan.cached := [];
+              TraceqlPlan.attrs_table := "tempo_traces_attrs_gin"; TraceqlPlan.attrs_dist_table := "tempo_traces_attrs_gin_dist";
+              TraceqlPlan.traces_table := "tempo_traces"; TraceqlPlan.traces_dist_table := "tempo_traces_dist"; TraceqlPlan.kv_dist_table := "tempo_traces_kv_dist" |} in
+  TqEraseProofs.script_variant q q' /\
+  match TraceqlPlan.plan q TraceqlPlan.MSearch c 1 with
+  | TraceqlPlan.Ok s => pok QN (TqPieces.tq_pieces s) = true /\ List.length (rvalues (TqPieces.tq_pieces s)) = 12%nat
+  | _ => False
+  end.
+Proof.
+  split; [|vm_compute; split; reflexivity].
+  assert (V : forall l l' op tok unq tok' unq', TqEraseProofs.label_class l = TqEraseProofs.label_class l' ->
+     Traceql.unquoted {| Traceql.v_time := ""; Traceql.v_f := ""; Traceql.v_str := Some tok; Traceql.v_unq := Some unq; Traceql.v_ffmt := None; Traceql.v_dur := None |} <> None ->
+     Traceql.unquoted {| Traceql.v_time := ""; Traceql.v_f := ""; Traceql.v_str := Some tok'; Traceql.v_unq := Some unq'; Traceql.v_ffmt := None; Traceql.v_dur := None |} <> None ->
+     TqEraseProofs.term_variant
+       {| Traceql.a_label := l; Traceql.a_op := op; Traceql.a_val := {| Traceql.v_time := ""; Traceql.v_f := ""; Traceql.v_str := Some tok; Traceql.v_unq := Some unq; Traceql.v_ffmt := None; Traceql.v_dur := None |} |}
+       {| Traceql.a_label := l'; Traceql.a_op := op; Traceql.a_val := {| Traceql.v_time := ""; Traceql.v_f := ""; Traceql.v_str := Some tok'; Traceql.v_unq := Some unq'; Traceql.v_ffmt := None; Traceql.v_dur := None |} |}).
+  { intros l l' op tok unq tok' unq' Hc H1 H2. split; [exact Hc|]. split; [reflexivity|]. right.
+    split; [discriminate|]. split; [discriminate|]. split; [split; intro H; contradiction|]. split; reflexivity. }
+  split; [|split; [reflexivity|]].
+  - split; [reflexivity|]. split; [|reflexivity]. constructor; [|constructor]. apply V; [reflexivity| |]; vm_compute; discriminate.
+  - split; [|split; [reflexivity|exact I]].
+    split; [reflexivity|]. split; [|reflexivity]. constructor; [|constructor]. apply V; [reflexivity| |]; vm_compute; discriminate.
+Qed.
+
+(* {.foo="a" && .foo="a" || .bar!="b"} (the first two terms are ONE term for analyzeCond) and the same shape with hostile values *)
+Example traceql_same_shape_example :
+  let sv := fun tok unq => {| Traceql.v_time := ""; Traceql.v_f := ""; Traceql.v_str := Some tok; Traceql.v_unq := Some unq;
+                              Traceql.v_ffmt := None; Traceql.v_dur := None |} in
+  let tm := fun l op tok unq => {| Traceql.a_label := l; Traceql.a_op := op; Traceql.a_val := sv tok unq |} in
+  let a := tm ".foo" Traceql.CEq """a""" "a" in let b := tm ".bar" Traceql.CNeq """b""" "b" in
+  let a' := tm ".x" Traceql.CEq """') --""" "') --" in let b' := tm ".y" Traceql.CNeq """\""" "\" in
+  let ex := fun x y => Traceql.AExp (Traceql.HTerm x) Traceql.AOAnd (Some (Traceql.AExp (Traceql.HTerm x) Traceql.AOOr (Some (Traceql.AExp (Traceql.HTerm y) Traceql.AONone None)))) in
+  let phi := fun k => if String.eqb k (Traceql.attr_sel_string a) then Traceql.attr_sel_string a' else Traceql.attr_sel_string b' in
+  TqEraseProofs.exp_variant phi (ex a b) (ex a' b') /\ TqEraseProofs.inj_on phi (TqEraseProofs.exp_keys (ex a b)).
+Proof.
+  assert (V : forall l l' op tok unq tok' unq', TqEraseProofs.label_class l = TqEraseProofs.label_class l' ->
+     Traceql.unquoted {| Traceql.v_time := ""; Traceql.v_f := ""; Traceql.v_str := Some tok; Traceql.v_unq := Some unq; Traceql.v_ffmt := None; Traceql.v_dur := None |} <> None ->
+     Traceql.unquoted {| Traceql.v_time := ""; Traceql.v_f := ""; Traceql.v_str := Some tok'; Traceql.v_unq := Some unq'; Traceql.v_ffmt := None; Traceql.v_dur := None |} <> None ->
+     TqEraseProofs.term_variant
+       {| Traceql.a_label := l; Traceql.a_op := op; Traceql.a_val := {| Traceql.v_time := ""; Traceql.v_f := ""; Traceql.v_str := Some tok; Traceql.v_unq := Some unq; Traceql.v_ffmt := None; Traceql.v_dur := None |} |}
+       {| Traceql.a_label := l'; Traceql.a_op := op; Traceql.a_val := {| Traceql.v_time := ""; Traceql.v_f := ""; Traceql.v_str := Some tok'; Traceql.v_unq := Some unq'; Traceql.v_ffmt := None; Traceql.v_dur := None |} |}).
+  { intros l l' op tok unq tok' unq' Hc H1 H2. split; [exact Hc|]. split; [reflexivity|]. right.
+    split; [discriminate|]. split; [discriminate|]. split; [split; intro H; contradiction|]. split; reflexivity. }
+  split.
+  - split; [reflexivity|]. split; [split; [apply V; [reflexivity| |]; vm_compute; discriminate|reflexivity]|].
+    split; [reflexivity|]. split; [split; [apply V; [reflexivity| |]; vm_compute; discriminate|reflexivity]|].
+    split; [reflexivity|]. split; [split; [apply V; [reflexivity| |]; vm_compute; discriminate|reflexivity]|exact I].
+  - intros x y Hx Hy. vm_compute in Hx, Hy.
+    destruct Hx as [Hx|[Hx|[Hx|[]]]]; destruct Hy as [Hy|[Hy|[Hy|[]]]]; subst x y; intro H; try reflexivity; vm_compute in H; discriminate.
 Qed.
 
